@@ -42,8 +42,9 @@ def designed_history(rng):
         st['enter'] = ['M117 in']; st.pop('enter_text', None)
     if rng.random() < 0.7 and not st['exit']:
         st['exit'] = ['M117 out']; st.pop('exit_text', None)
+    st0 = dict(st)
     evs = [('api', 'addExcludeRegion', dict(REGION), False), ('event', 'PRINT_STARTED'), ('cmd', 'G28'), ('cmd', 'G1 X5 Y5 Z0.3 E1 F3000')]
-    dirty = rng.sample(['wipe-entry', 'owed', 'inch', 'relative', 'disabled', 'deferred', 'plain-entry', 'fw', 'two-episodes', 'g92'], rng.randint(1, 4))
+    dirty = rng.sample(['wipe-entry', 'owed', 'inch', 'relative', 'disabled', 'deferred', 'plain-entry', 'fw', 'two-episodes', 'g92', 'settings'], rng.randint(1, 4))
     for d in dirty:
         if d == 'wipe-entry':
             evs += [('cmd', 'G1 X15 Y15 E0.2'), ('cmd', 'G1 X16 Y16 E0.5'), ('cmd', 'G1 X30 Y30 E1'), ('cmd', 'G1 X5 Y5 E1.5')]
@@ -63,13 +64,21 @@ def designed_history(rng):
             evs += [('cmd', 'G10'), ('cmd', 'G1 X15 Y15'), ('cmd', 'G11')]
         elif d == 'two-episodes':
             evs += [('cmd', 'G1 X15 Y15 E2'), ('cmd', 'G1 X40 Y40 E3'), ('cmd', 'G1 X15 Y15 E2.5'), ('cmd', 'G1 X40 Y40 E4')]
+        elif d == 'settings':
+            # the tables and scripts are edited while the print runs: codes taken out, scripts changed
+            st2 = dict(st)
+            st2['ext'] = dict((g, m) for g, m in st['ext'].items() if rng.random() < 0.5)
+            st2['enter'] = rng.choice([[], ['M117 in2'], st['enter']]); st2.pop('enter_text', None)
+            st2['exit'] = rng.choice([[], ['M117 out2'], st['exit']]); st2.pop('exit_text', None)
+            evs += [('settings', st2)]
+            st = st2
         elif d == 'g92':
             evs += [('cmd', 'G92 E0'), ('cmd', 'G1 F1234')]
     evs += rng.choice([[], [('event', 'PRINT_CANCELLED')], [('event', 'PRINT_FAILED')], [('script', 'gcode', 'afterPrintDone'), ('event', 'PRINT_DONE')], [('event', 'ERROR')]])
-    tail = [('cmd', 'G28'), ('cmd', 'G1 X5 Y5 Z0.3 E1 F3000'), ('cmd', 'M204 S500'), ('cmd', 'G1 X15 Y15 E0.5'), ('cmd', 'M204 S700'), ('cmd', 'G1 X16 Y16 E2'),
+    tail = [('cmd', 'G28'), ('cmd', 'G1 X5 Y5 Z0.3 E1 F3000'), ('cmd', 'M204 S500'), ('cmd', 'G1 X15 Y15 E0.5'), ('cmd', 'M204 S700'), ('cmd', 'G4 P100'), ('cmd', 'M117 tail'), ('cmd', 'M73 P9'), ('cmd', 'G1 X16 Y16 E2'),
             ('cmd', 'G1 X30 Y30 E3'), ('cmd', 'G1 E2'), ('cmd', 'G1 X15 Y15'), ('cmd', 'G1 E3'), ('cmd', 'G1 X40 Y40'), ('cmd', 'G1 X41 Y41 E4'),
             ('cmd', 'G10'), ('cmd', 'G1 X12 Y12'), ('cmd', 'G11'), ('cmd', 'G1 X50 Y50 E5'), ('script', 'gcode', 'afterPrintDone')]
-    return dict(settings=st, events=evs, tail=tail)
+    return dict(settings=st0, events=evs, tail=tail)
 
 
 def oracle(ctx, budget=1, replay=None, hints=None):
